@@ -47,7 +47,9 @@ fn run_one(cfg: &Cfg, apps: &Arc<Vec<Vec<L>>>, proto: &dyn Monitor, prefix: &[u8
     let mut pending: Vec<(u64, usize, Reply)> = vec![];
     let mut armed: Option<u64> = None;
     let mut sends = 0usize;
-    let horizon = 400_000 * MS;
+    // no fixed time horizon: a learned RTO can be minutes long (a reply that arrives after 40 s is a legitimate RTT
+    // sample); executions end when nothing is armed, pending or planned, or at the step cap (reported, not a verdict)
+    let mut capped = false;
     let mut do_step = |run: &mut Run, hist: &mut Vec<Event>, ev: Event, rep: &mut Report| {
         hist.push(ev.clone());
         let h = hist.clone();
@@ -56,7 +58,11 @@ fn run_one(cfg: &Cfg, apps: &Arc<Vec<Vec<L>>>, proto: &dyn Monitor, prefix: &[u8
     let mut steps = 0;
     loop {
         steps += 1;
-        if steps > 400 || run.w.dead.is_some() {
+        if run.w.dead.is_some() {
+            break;
+        }
+        if steps > 400 {
+            capped = true;
             break;
         }
         // next occurrence
@@ -73,9 +79,6 @@ fn run_one(cfg: &Cfg, apps: &Arc<Vec<Vec<L>>>, proto: &dyn Monitor, prefix: &[u8
             cands.push((t, 2));
         }
         let Some((t, what)) = cands.into_iter().min() else { break };
-        if t > horizon {
-            break;
-        }
         let mut after_call = false;
         match what {
             0 => {
@@ -158,7 +161,10 @@ fn run_one(cfg: &Cfg, apps: &Arc<Vec<Vec<L>>>, proto: &dyn Monitor, prefix: &[u8
         }
     }
     // run ended: nothing armed, nothing pending, nothing planned
-    let stranded = run.w.dead.is_none() && !run.w.awaiting().is_empty();
+    if capped {
+        rep.capped = Some("a run-to-completion execution hit the 400-step cap".into());
+    }
+    let stranded = !capped && run.w.dead.is_none() && !run.w.awaiting().is_empty();
     {
         let h = hist.clone();
         run.mon.on_end(&run.w, stranded, Some((rep, &h)));
